@@ -299,3 +299,135 @@ Proof.
   rewrite H. now destruct (Bech32.to_chars data).
 Qed.
 Print Assumptions toChars_tie.
+
+(* ---------- Decode ---------- *)
+(* a checking loop `for i := 0; i < len(l); i++ { if !P(l[i]) { return error e } }` *)
+Lemma check_loop {A} (l : list A) (F : unit -> Z -> res unit) (P : A -> bool) e :
+  (forall i x, Go.idx l i = Ok x -> F tt i = if P x then Ok tt else Err e) ->
+  Go.foldM F (Go.zseq 0%Z (Z.to_nat (Z.of_nat (length l)))) tt = if forallb P l then Ok tt else Err e.
+Proof.
+  intros H.
+  rewrite (foldM_idx l F (fun _ x => if P x then Ok tt else Err e)) by (intros [] i x Hi; now apply H).
+  clear H. induction l as [|x t IH]; cbn [Go.foldM forallb]; [reflexivity|].
+  destruct (P x); [exact IH | reflexivity].
+Qed.
+
+Lemma to_lower_tie s : Go.to_lower s = map Bech32.to_lower s.
+Proof. reflexivity. Qed.
+Lemma to_upper_tie s : Go.to_upper s = map Bech32.to_upper s.
+Proof. reflexivity. Qed.
+
+Definition zidx (o : option nat) : Z := match o with Some k => Z.of_nat k | None => (-1)%Z end.
+
+Lemma last_index_byte_from_spec c s : forall i bo,
+  Go.last_index_byte_from s c (Z.of_nat i) (zidx bo) = zidx (Bech32.last_index c s i bo).
+Proof.
+  induction s as [|x t IH]; intros i bo; cbn [Go.last_index_byte_from Bech32.last_index]; [reflexivity|].
+  replace (Z.of_nat i + 1)%Z with (Z.of_nat (S i)) by lia.
+  rewrite <- IH. f_equal. now destruct (x =? c).
+Qed.
+
+Lemma last_index_byte_spec c s :
+  Go.last_index_byte s c = zidx (Bech32.last_index c s 0 None).
+Proof. exact (last_index_byte_from_spec c s 0%nat None). Qed.
+
+Lemma Bytes_firstn n l : Bytes l -> Bytes (firstn n l).
+Proof. intros H. rewrite <- (firstn_skipn n l) in H. now apply Bytes_app in H. Qed.
+
+Lemma to_bytes_props chars : forall l,
+  Bech32.to_bytes chars = Some l -> length l = length chars /\ Forall (fun x => x < 32) l.
+Proof.
+  induction chars as [|c t IH]; intros l; cbn [Bech32.to_bytes].
+  - intros [= <-]. split; [reflexivity | constructor].
+  - destruct (Bech32.index_of c Bech32.charset 0) as [j|] eqn:Ej; [|discriminate].
+    destruct (Bech32.to_bytes t) as [r|]; [|discriminate].
+    intros [= <-]. destruct (IH r eq_refl) as [IH1 IH2]. cbn [length]. split; [now rewrite IH1|].
+    constructor; [now apply index_of_charset_lt in Ej | exact IH2].
+Qed.
+
+Lemma lower_Bytes bech :
+  forallb (fun c => negb ((c <? lit lits_Decode 3) || (lit lits_Decode 4 <? c))) bech = true ->
+  Bytes (map Bech32.to_lower bech).
+Proof.
+  eval_term (lit lits_Decode 3). eval_term (lit lits_Decode 4).
+  intros H. rewrite forallb_forall in H. apply Forall_forall. intros y Hy.
+  apply in_map_iff in Hy as [c [<- Hc]]. specialize (H c Hc). unfold Bech32.to_lower.
+  destruct ((65 <=? c) && (c <=? 90)); lia.
+Qed.
+
+(* both sides are conditionals on equivalent conditions (decided by lia) *)
+Ltac same_if H :=
+  match goal with |- (if ?c1 then _ else _) = (if ?c2 then _ else _) =>
+    let E := fresh in assert (E : c1 = c2) by lia; rewrite E; clear E; destruct c2 eqn:H; [reflexivity|]
+  end.
+
+(* No hypothesis on bech: after the range check every byte is in 33..126, so the lowered string is a
+   byte string (which is also where the ASCII-only intrinsics Go.to_lower/Go.to_upper are exact),
+   and the decoded symbols are below 32.  In the failing-checksum branch the slices, bech32Checksum
+   and toChars evaluated for the error message cannot panic (one+7 <= len gives len(decoded) >= 6). *)
+Theorem Decode_tie bech : Kernels2.Decode bech = Bech32.decode bech.
+Proof.
+  unfold Kernels2.Decode, Bech32.decode. cbv zeta.
+  rewrite to_lower_tie, to_upper_tie.
+  pose proof (lower_Bytes bech) as Hlb.
+  eval_term (lit lits_Decode 0). eval_term (lit lits_Decode 1).
+  same_if Hlen.
+  match goal with |- context [forallb ?P bech] =>
+    rewrite (check_loop bech _ P 2)
+  end.
+  2:{ intros i x Hi. rewrite !Hi. cbn [rbind].
+      eval_term (lit lits_Decode 3). eval_term (lit lits_Decode 4).
+      destruct (x <? _); cbn [rbind orb negb]; [reflexivity|]. now destruct (_ <? x). }
+  destruct (forallb _ bech); cbn [rbind negb]; [|reflexivity].
+  specialize (Hlb eq_refl).
+  destruct (negb (list_eqb bech (map to_lower bech)) && negb (list_eqb bech (map to_upper bech)));
+    [reflexivity|].
+  assert (Hn : length (map Bech32.to_lower bech) = length bech) by apply map_length.
+  revert Hlb Hn. generalize (map Bech32.to_lower bech) as lower. intros lower Hlb Hn.
+  rewrite !Hn. eval_term (lit lits_Decode 5). rewrite last_index_byte_spec.
+  destruct (Bech32.last_index _ lower 0 None) as [k|]; cbn [zidx]; [|reflexivity].
+  same_if Hk.
+  (* hrp := bech[:one], data := bech[one+1:] *)
+  rewrite slice_prefix by lia. cbn [rbind].
+  replace (Z.of_nat k + 1)%Z with (Z.of_nat (k + 1)) by lia.
+  rewrite <- Hn at 1. rewrite slice_nat by lia.
+  rewrite (firstn_all2 (skipn (k + 1) lower)) by (rewrite skipn_length; lia). cbn [rbind].
+  pose proof (skipn_length (k + 1) lower) as Hdl. revert Hdl.
+  generalize (skipn (k + 1) lower) as data. intros data Hdl.
+  pose proof (Bytes_firstn k lower Hlb) as Hhb. revert Hhb.
+  generalize (firstn k lower) as hrp. intros hrp Hhb.
+  rewrite toBytes_tie.
+  destruct (Bech32.to_bytes data) as [decoded|] eqn:Edec; [|reflexivity].
+  apply to_bytes_props in Edec as [Hdlen Hdsmall].
+  assert (Hdb : Bytes decoded) by (apply (Forall_lt_weaken _ 32); [discriminate | exact Hdsmall]).
+  rewrite bech32VerifyChecksum_tie by assumption. cbn [rbind].
+  replace (Z.of_nat (length decoded) - 6)%Z with (Z.of_nat (length decoded - 6)) by lia.
+  rewrite slice_prefix by lia.
+  destruct (Bech32.verify_checksum hrp decoded); cbn [negb rbind]; [reflexivity|].
+  (* the failing branch computes the expected checksum for the message only *)
+  replace (Z.of_nat (length bech) - 6)%Z with (Z.of_nat (length bech - 6)) by lia.
+  rewrite <- Hn at 2. rewrite slice_nat by lia. cbn [rbind].
+  rewrite bech32Checksum_tie by (try apply Bytes_firstn; assumption). cbn [rbind].
+  rewrite toChars_tie. now destruct (Bech32.to_chars _).
+Qed.
+Print Assumptions Decode_tie.
+
+(* ---------- Encode ---------- *)
+(* the model's error class 7 (data byte outside 0..31) is the code's only error return site, 1 *)
+Theorem Encode_tie hrp data : Bytes hrp -> Bytes data ->
+  Kernels2.Encode hrp data = match Bech32.encode hrp data with Err _ => Err 1 | r => r end.
+Proof.
+  intros Hh Hd. unfold Kernels2.Encode, Bech32.encode.
+  rewrite bech32Checksum_tie by assumption. cbn [rbind app]. rewrite toChars_tie.
+  destruct (Bech32.to_chars _); [|reflexivity]. now rewrite <- app_assoc.
+Qed.
+Print Assumptions Encode_tie.
+
+(* sanity: the generated code runs (BIP-173 vector "A12UEL5L": hrp "a", empty data), and a corrupted
+   checksum takes the branch discussed above *)
+Example Decode_run : Kernels2.Decode [65; 49; 50; 85; 69; 76; 53; 76] = Ok ([97], []).
+Proof. vm_compute. reflexivity. Qed.
+Example Decode_run_bad : Kernels2.Decode [65; 49; 50; 85; 69; 76; 53; 77] = Err 6.
+Proof. vm_compute. reflexivity. Qed.
+Example Encode_run : Kernels2.Encode [97] [] = Ok [97; 49; 50; 117; 101; 108; 53; 108].
+Proof. vm_compute. reflexivity. Qed.
